@@ -71,7 +71,9 @@ def arg_lane_mismatches(index, files, family):
             pairs = []
             if params:
                 for i, a in enumerate(c.args):
-                    if i < len(params) and not isinstance(a, ast.Starred):
+                    if isinstance(a, ast.Starred):
+                        break      # the arguments after a spread sequence have no known position
+                    if i < len(params):
                         pairs.append((params[i], a))
             for k in c.keywords:
                 if k.arg:
